@@ -462,6 +462,7 @@ func runC05(c *Ctx) {
 	g := c.Group("val", []string{"IdPModel"}, "c05case", "check_c05")
 	gi := c.Group("init", []string{"IdPModel"}, "c05icase", "check_c05i")
 	r := c.Rng
+	defer seqC05(c, c.Group("hist", []string{"IdPModel"}, "c05case", "check_c05"))
 
 	// --- systematic block: one valid base request, every dimension varied alone, against crafted metadata ---
 	t, f := bptr(true), bptr(false)
